@@ -239,7 +239,7 @@ def run(ctx, pid):
         k = dict(constants=tla_consts(c), invariants=inv, properties=props)
         if kind == 'wide':
             return recipe.tlc_only(label, 'Pool', workers=6 if thorough else 4,
-                                   timeout=1800 if thorough else 600, heap='6g', budget_ok=True, **k)
+                                   timeout=900 if thorough else 600, heap='6g', budget_ok=True, **k)
         if kind == 'small':
             return recipe.tlc_only(label, 'Pool', emit=True, timeout=3000 if thorough else 600,
                                    heap='6g' if thorough else '3g', **k)
